@@ -128,6 +128,7 @@ Theorem C28_source_facts :
   existsb (fun s => String.eqb (site_fn s) "handleWakeCommand"%string) gen_c28_frame_path_sites = true /\
   gen_c28_queued_dispatch = ["handleSleepCommand"; "handleWakeCommand"]%string /\
   gen_c28_dispatch_ok = true /\
+  gen_c28_flooder_gets_signing_key_whenever_configured = true /\
   gen_c28_sleep_verify_then_mark_then_forward = true /\ gen_c28_wake_verify_then_mark_then_forward = true /\
   gen_c28_sleep_reject_returns_false = true /\ gen_c28_wake_reject_returns_false = true /\
   gen_c28_sleep_verify_checks = ["no-key-accept"; "zero-signature-reject"; "timestamp-reject"; "signature-reject"]%string /\
